@@ -275,18 +275,36 @@ def early_capture(rng, recursion):
 
 # ------------------------------------------------------------------ running
 def run_model_safe(env, name, recs, order, depth=0):
-    """langrun.run_model, tolerant of a model run that exhausts the OCaml stack on one program
-    (e.g. strings doubled in a loop): the batch is split until the offending case is alone; that
-    case gets no model record and is counted as inconclusive."""
-    try:
-        return langrun.run_model(env, name, recs, order)
-    except RuntimeError:
-        if len(order) <= 1:
-            return {}
-        mid = len(order) // 2
-        out = run_model_safe(env, "%s.l%d" % (name, depth), recs, order[:mid], depth + 1)
-        out.update(run_model_safe(env, "%s.r%d" % (name, depth), recs, order[mid:], depth + 1))
-        return out
+    """`nsmodel lang` on the ast/plan lines of a batch (same input format as langrun.run_model), with a
+    large native stack and a time limit: the extracted evaluator's recursion depth follows loop
+    iterations and call depth, and a program that doubles a string in a loop can take minutes in the
+    list-based model.  A batch that dies or times out is split; a case that fails alone gets no model
+    record and is counted as inconclusive."""
+    inp = os.path.join(env.work, name + ".model.in")
+    outp = os.path.join(env.work, name + ".model")
+    n = 0
+    with open(inp, "w") as f:
+        for cid in order:
+            r = recs.get(cid)
+            if not r or not r.get("ast") or not r.get("plan"):
+                continue
+            f.write("case %s\n%s\n%s\nend %s\n" % (cid, r["ast"], r["plan"], cid))
+            n += 1
+    if n == 0:
+        return {}
+    if os.path.exists(outp):
+        os.remove(outp)
+    cmd = "ulimit -s unlimited 2>/dev/null || ulimit -s 1000000 2>/dev/null; exec %s lang %s %s %s" % (
+        common.NSMODEL, langrun.eps_hex(), inp, outp)
+    rc, out = common.sh(["bash", "-c", cmd], timeout=max(15, min(120, n)))
+    if rc == 0:
+        return langrun.parse_records(open(outp).read().splitlines())
+    if len(order) <= 1:
+        return {}
+    mid = len(order) // 2
+    res = run_model_safe(env, "%s.l%d" % (name, depth), recs, order[:mid], depth + 1)
+    res.update(run_model_safe(env, "%s.r%d" % (name, depth), recs, order[mid:], depth + 1))
+    return res
 
 
 def run_checker(env, name, recs=None, order=None):
